@@ -6,6 +6,7 @@ permutation, a regrouping, a superset, a request with duplicates — then, in a 
 answers carry identical blocks for `p`, whatever the engine states the two calls started from.
 -/
 import GwbVerif.Properties.C01
+import GwbVerif.Properties.C09
 namespace Gwb
 open Scalar
 set_option linter.unusedSectionVars false
@@ -60,5 +61,46 @@ theorem C01_output_size_2d (w : World R) (pt : P2 R) (depth : R) (ps : List Req)
     obtain ⟨rfl, _⟩ := h
     have hf := World.props2Blocks_fits w pt depth ps g bs g1 hb
     exact ⟨hf.flatten_length, outputSize?_eq ps hf.valid⟩
+
+theorem Fits.flatten_inj {ps : List Req} {bs bs' : List (List R)} (h : Fits ps bs) (h' : Fits ps bs')
+    (hfl : bs.flatten = bs'.flatten) : bs = bs' := by
+  induction ps generalizing bs bs' with
+  | nil => cases bs <;> cases bs' <;> simp_all [Fits]
+  | cons p ps ih =>
+    cases bs with
+    | nil => simp [Fits] at h
+    | cons b bs =>
+      cases bs' with
+      | nil => simp [Fits] at h'
+      | cons b' bs' =>
+        simp only [Fits] at h h'
+        have hlen : b.length = b'.length := by
+          have := h.1.symm.trans h'.1
+          simpa using this
+        simp only [List.flatten_cons] at hfl
+        obtain ⟨hb, hrest⟩ := List.append_inj hfl hlen
+        rw [hb, ih h.2 h'.2 hrest]
+
+/-- **C01 (2-D)** a 2-D query on a world without random models leaves the engine unchanged and does not depend on it -/
+theorem C01_no_hidden_state_2d (w : World R) (hnr : w.NoRandom) (pt : P2 R) (depth : R) (ps : List Req)
+    (g g' : G) (out : List R) (h : w.props2 pt depth ps g = .ok (out, g')) :
+    g' = g ∧ ∀ g₂ : G, w.props2 pt depth ps g₂ = .ok (out, g₂) := by
+  cases hc : w.cross with
+  | none => rw [C09_no_cross_section_refused w hc] at h; cases h
+  | some c =>
+    obtain ⟨c0, c1⟩ := c
+    obtain ⟨hok, herr⟩ := C09_2d_is_projected_3d w c0 c1 hc pt depth ps g
+    cases h3 : w.props3 (w.lift2 c0 c1 pt) depth ps g with
+    | error e => rw [herr e h3] at h; cases h
+    | ok r =>
+      obtain ⟨out3, g3⟩ := r
+      obtain ⟨bs, hf, rfl, h2⟩ := hok _ g3 h3
+      rw [h2] at h
+      simp only [Except.ok.injEq, Prod.mk.injEq] at h
+      obtain ⟨rfl, rfl⟩ := h
+      obtain ⟨hg, hall⟩ := C01_no_hidden_state w hnr _ depth ps g g3 _ h3
+      refine ⟨hg, fun g₂ => ?_⟩
+      obtain ⟨bs', hf', hfl, h2'⟩ := (C09_2d_is_projected_3d w c0 c1 hc pt depth ps g₂).1 _ g₂ (hall g₂)
+      rw [h2', Fits.flatten_inj hf hf' hfl]
 
 end Gwb
